@@ -42,11 +42,19 @@ def alphabet(tier: str, variant: str = "full") -> Tuple[List[List[tuple]], List[
         d += [[PTR(TA, Y, 1125)], [PTR(TA, Y, 4500, FL)], [PTR(TA, X, 2)], [PTR(TA, X, 0), PTR(TB, Z, 4500)],
               [PTR(TA, Y, 0), PTR(TA, X, 0)], [("SRV", X, FL, 0, 0, 0, 80, "h.local.")], [("A", "h.local.", FL, 0, IP)],
               [PTR("_c._tcp.local.", "q._c._tcp.local.", 4500)]]
-    steps = [1, 999, 1000, 1001, 10000, 1124999, 1125001, 4500000, 10800000]
+    steps = [1, 999, 1000, 1001, 10000, 1124999, 1125001, 4500000]
     if tier != "quick":
-        steps += [9999, 10001, 1125000, 3375000, 4499999]
+        steps += [9999, 10001, 1125000, 3375000, 4499999, 10800000]
     if variant == "short-steps":
         steps = [1, 1000, 1001, 10000, 1125001]
+    if variant == "core":
+        # the deepest quick search uses one representative per kind of datagram
+        keep = {repr(x) for x in ([PTR(TA, X, 4500)], [PTR(TA, X, 1)], [PTR(TA, X, 0)], [PTR(TA, Y, 4500)], [PTR(TA, Y, 0)],
+                                  [PTR(TA, XU, 4500)], [PTR(TA, X, 4500, FL)], [PTR(TA, X, 0), PTR(TA, Y, 4500)],
+                                  [PTR(TA, X, 1), PTR(TA, X, 4500)], d[15], [PTR(TB, Z, 4500)],
+                                  [("TXT", X, FL, 4500, b"\x01c"), PTR(TA, X, 0)])}
+        d = [x for x in d if repr(x) in keep]
+        steps = [1, 1000, 1001, 10000, 1125001, 4500000]
     ops = [("start", "a"), ("cancel", "a"), ("start", "ab")]
     if tier != "quick":
         ops += [("cancel", "ab")]
@@ -83,9 +91,10 @@ class Log:
 
 
 class Search:
-    def __init__(self, tier: str, variant: str = "full") -> None:
+    def __init__(self, tier: str, variant: str = "full", prefix: tuple = ()) -> None:
         self.tier = tier
         self.variant = variant
+        self.prefix = tuple(tuple(e) for e in prefix)  # events that happen before every explored history
         self.dgrams, self.steps, self.ops = alphabet(tier, variant)
         self.events = [("d", i) for i in range(len(self.dgrams))] + [("t", s) for s in self.steps] + list(self.ops)
         self.current: Optional[List[tuple]] = None
@@ -95,7 +104,7 @@ class Search:
 
     def enabled(self, hist: tuple, ev: tuple) -> bool:
         active = set()
-        for e in hist:
+        for e in self.prefix + tuple(hist):
             if e[0] == "start":
                 active.add(e[1])
             elif e[0] == "cancel":
@@ -110,6 +119,8 @@ class Search:
         from zeroconf.asyncio import AsyncServiceBrowser
 
         problems: List[str] = []
+        shown = hist
+        hist = self.prefix + tuple(hist)
         with World() as w:
             host = w.new_zeroconf()
             zc = host.zc
@@ -172,11 +183,11 @@ class Search:
         verdict = None
         if problems and not skipped:
             verdict = {"what": f"C04 {self.describe(hist)}: {problems[0]}", "replay": {"tier": self.tier, "variant": self.variant,
-                       "problems": problems[:5]}, "signature": {"check": problems[0].split(":")[0][:30]}}
+                       "prefix": [list(e) for e in self.prefix], "problems": problems[:5]}, "signature": {"check": problems[0].split(":")[0][:30]}}
             if verbose:
                 for p in problems:
                     print("   ", p)
-        return verdict, canon, len(hist)
+        return verdict, canon, len(shown)
 
     @staticmethod
     def check_log(problems: List[str], log: Log, key: str) -> set:
@@ -206,8 +217,15 @@ def run(tier: str, seed: int) -> Tuple[Stats, str, List[str], Dict[str, Any]]:
     b = bfs_histories(s.step, s.events, 2, s2, "self-check", dedup=False, enabled=s.enabled)
     if set().union(*a.values()) != set().union(*b.values()):
         raise HarnessError("canonical form too coarse: de-duplicated search misses states")
-    bfs_histories(s.step, s.events, depth, stats, f"C04/{tier}", enabled=s.enabled, level_log=log,
+    # (i) no browser at the start (browsers start over whatever the cache holds by then), one level less deep in the
+    # quick tier; (ii) a browser is already running when the history begins, full depth
+    bfs_histories(s.step, s.events, depth - 1 if tier == "quick" else depth, stats, f"C04/{tier}", enabled=s.enabled,
+                  level_log=log, max_states=None if tier == "quick" else 250000)
+    s_b = Search(tier, "core" if tier == "quick" else "full", prefix=(("start", "a"),))
+    log_b: List[Dict[str, int]] = []
+    bfs_histories(s_b.step, s_b.events, depth, stats, f"C04/{tier}/browsing", enabled=s_b.enabled, level_log=log_b,
                   max_states=None if tier == "quick" else 250000)
+    stats.notes["levels_browsing"] = log_b
     s_short = Search(tier, "short-steps")
     if tier != "quick":
         bfs_histories(s_short.step, s_short.events, depth + 1, stats, f"C04/{tier}/short-steps",
@@ -225,12 +243,14 @@ def run(tier: str, seed: int) -> Tuple[Stats, str, List[str], Dict[str, Any]]:
         "the duplicate-datagram guard is bypassed by distinct message ids (C16 covers it)",
         "AsyncServiceBrowser (callbacks in the loop); the thread-based ServiceBrowser shares _ServiceBrowserBase",
     ]
-    return stats, rule, assumptions, {"depth_full_alphabet": depth, "depth_short_clock_steps": None if tier == "quick" else depth + 1,
+    return stats, rule, assumptions, {"depth_browser_running_from_start": depth,
+                                      "depth_no_browser_at_start": depth - 1 if tier == "quick" else depth,
+                                      "depth_full_alphabet": depth, "depth_short_clock_steps": None if tier == "quick" else depth + 1,
                                       "events": len(s.events)}
 
 
 def replay(data: Dict[str, Any]) -> int:
-    s = Search(data["tier"], data.get("variant", "full"))
+    s = Search(data["tier"], data.get("variant", "full"), tuple(tuple(e) for e in data.get("prefix", ())))
     hist = tuple(tuple(e) for e in data["history"])
     print("history:", s.describe(hist))
     v, c1, _ = s.step(hist, verbose=True)
